@@ -200,6 +200,9 @@ func (r *Run) Violation(signature string, detail any) {
 		b, _ := json.Marshal(map[string]any{"violation": signature})
 		r.wal.Write(append(b, '\n'))
 	}
+	if !r.finished && len(r.violOrder) <= 64 {
+		r.writeLocked(true)
+	}
 }
 
 // Violations returns the number of distinct signatures so far.
@@ -235,6 +238,17 @@ func (r *Run) Finish() {
 		return
 	}
 	r.finished = true
+	r.writeLocked(false)
+	if r.wal != nil {
+		r.wal.Close()
+	}
+	r.t.Logf("verif %s/%s: evals=%d distinct=%d violations=%d", r.Property, r.Name, r.evals, len(r.distinct), len(r.viol))
+}
+
+// writeLocked writes the (possibly partial) result file; r.mu must be held. A partial
+// file is written whenever a new violation signature is recorded, so that a violation
+// survives a later watchdog kill or process-fatal error of the same test process.
+func (r *Run) writeLocked(partial bool) {
 	keys := make([]string, 0, len(r.distinct))
 	for k := range r.distinct {
 		keys = append(keys, k)
@@ -243,12 +257,22 @@ func (r *Run) Finish() {
 	if len(keys) > 40 {
 		keys = keys[:40]
 	}
+	obs := r.obs
+	if partial {
+		obs = map[string]any{"partial_result": true}
+		for k, v := range r.obs {
+			obs[k] = v
+		}
+	}
 	rf := resultFile{
 		Property: r.Property, Name: r.Name, Seed: r.Seed, Tier: r.Tier,
 		Evaluations: r.evals, Distinct: len(r.distinct), DistinctKeys: keys,
-		Rule: r.rule, Exhaustive: r.exhaust, Samples: r.samples,
-		Counters: r.counters, Floors: r.floors, Observations: r.obs,
+		Rule: r.rule, Exhaustive: r.exhaust && !partial, Samples: r.samples,
+		Counters: r.counters, Floors: r.floors, Observations: obs,
 		WallS: time.Since(r.start).Seconds(),
+	}
+	if partial {
+		rf.Floors = map[string]int64{} // floors are judged on complete runs only
 	}
 	for _, s := range r.violOrder {
 		rf.Violations = append(rf.Violations, r.viol[s])
@@ -266,10 +290,6 @@ func (r *Run) Finish() {
 	tmp := filepath.Join(r.outDir, "result-"+r.Name+".json.tmp")
 	_ = os.WriteFile(tmp, b, 0o644)
 	_ = os.Rename(tmp, filepath.Join(r.outDir, "result-"+r.Name+".json"))
-	if r.wal != nil {
-		r.wal.Close()
-	}
-	r.t.Logf("verif %s/%s: evals=%d distinct=%d violations=%d", r.Property, r.Name, r.evals, len(r.distinct), len(r.viol))
 }
 
 // Guard runs f and turns a panic into a violation with the given signature prefix.
